@@ -91,7 +91,7 @@ func main() {
 		"pre-check requests are unsigned by honest clients: they must fail for an unknown proxy or a disallowed user and create no state; the signature is demanded only where something is bridged",
 		"an admissible request that is refused is reported too (it would silently empty the admitted side of the monitors)",
 		"xtcp registration / closure is serialised against pre-check requests by the harness (unsynchronised read in the pinned pre-check branch is judged by C16, not here)",
-		"reply and closure watchdogs (30 s / 15 s) are bounded-progress limits on synchronous server paths, not timing verdicts",
+		"reply and closure watchdogs (30 s / 20 s) are bounded-progress limits on synchronous server paths, not timing verdicts",
 		"a backend that speaks first on an admitted visitor connection is not generated (ordering of NewVisitorConnResp vs. early backend data is judged by C01)",
 	}
 	pa = h.Ports(prop)
@@ -105,8 +105,8 @@ func main() {
 	})
 	defer rmSid()
 
-	nMsg := run.N(240, 2400)
-	nOrder := run.N(90, 900)
+	nMsg := run.N(400, 4000)
+	nOrder := run.N(150, 1500)
 	nReal := realCaseCount()
 	total := nMsg + nOrder + nReal
 	run.Parallel(total, 12, func(c *h.Case) {
@@ -127,7 +127,7 @@ func main() {
 		e.srv.Close()
 	}
 	run.Set("hook_hits", h.HookHits())
-	run.Finish(run.N(150, 600))
+	run.Finish(run.N(800, 3000))
 }
 
 // finalLedger: at the end of the run every NAT-hole session still in a server's table must stem from a request
